@@ -396,14 +396,18 @@ func NewUDPEnd(ip net.IP, port int) (*UDPEnd, error) {
 			}
 			e.mu.Lock()
 			e.Got = append(e.Got, recvEv{time.Now(), from.String(), append([]byte(nil), buf[:n]...)})
+			e.n.Add(1) // under the lock: Count() never lags behind what Snap() shows
 			e.mu.Unlock()
-			e.n.Add(1)
 		}
 	}()
 	return e, nil
 }
 
-func (e *UDPEnd) Count() int { return int(e.n.Load()) }
+func (e *UDPEnd) Count() int {
+	e.mu.Lock()
+	defer e.mu.Unlock()
+	return len(e.Got)
+}
 
 func (e *UDPEnd) Snap() []recvEv {
 	e.mu.Lock()
